@@ -1074,7 +1074,8 @@ theorem reach_inv3 (fuel : Nat) {arrivals : List (ℚ × Int)} (hw : WorkOK flow
 /-- a state with an empty agenda: the oracle is drained and has seen exactly the workload -/
 theorem oinv_final {s : KS} (hi : Inv2 F flow size cfg Lmax P s a) {arrivals : List (ℚ × Int)}
     (ho : OInv F flow size cfg arrivals a s.now (histOf s.trace) o) (hag : s.agenda = []) :
-    drained F o = true ∧ obsPuts (histOf s.trace) = arrivalsFrom 0 arrivals := by
+    drained F o = true ∧ obsPuts (histOf s.trace) = arrivalsFrom 0 arrivals ∧
+      ∀ c, MQ.heldC (DRR.sched cfg) (toM cfg.flows flow size a (histOf s.trace) s.now) c = [] := by
   have hperm := hi.i.k.ag
   rw [hag] at hperm
   have hent : a.entries = [] := hperm.nil_eq.symm
@@ -1119,6 +1120,21 @@ theorem oinv_final {s : KS} (hi : Inv2 F flow size cfg Lmax P s a) {arrivals : L
       | init q0 arr => rw [hs] at hse; simp [SPhase.entries] at hse
       | wait id rest q0 => rw [hs] at hse; simp [SPhase.entries] at hse
       | ending q0 => rw [hs] at hse; simp [SPhase.entries] at hse
-      | done => rw [hs] at this; simpa [srcFuture] using this
+      | done =>
+        rw [hs] at this
+        refine ⟨by simpa [srcFuture] using this, ?_⟩
+        intro c
+        have hst : MQ.storeOf (toM cfg.flows flow size a (histOf s.trace) s.now).stores c = [] := by
+          simp only [MQ.storeOf, MQ.lookupD, toM, mst, lookup_dictOf]
+          by_cases hc : c ∈ a.keys
+          · simp [hc, hrun.1 htk c (hi.i.a.keysOK.1 c hc)]
+          · simp [hc]
+        have hho : MQ.lookupD (toM cfg.flows flow size a (histOf s.trace) s.now).hol c none = none := by
+          simp only [MQ.lookupD, toM, mst, lookup_dictOf]
+          by_cases hc : c ∈ parkKeys flow (histOf s.trace)
+          · simp [hc, hrun.2.2.2 c (hok_parkKeys hi.h c hc)]
+          · simp [hc]
+        simp only [MQ.heldC, hst, hho]
+        simp [MQ.inHand, toM, mst, phaseOf, hr]
 
 end DRRK
